@@ -5,7 +5,7 @@
       module := ident parent+1(0 = none) nitems item*
       item   := F name tag block | C name tag | T name tag | I npaths path* | S id kind path
       block  := nimports path* nstmts stmt*
-      stmt   := L name tag | B block | P id kind(0 fn, 1 const, 2 type) path
+      stmt   := L name tag | B block | P id kind(0 fn, 1 const, 2 type) path | A name tag (parameter, head of a function body only)
       path   := len name*
     answer  `<base> ; <id>=<res>* ; <dotted>=<tag>* ; <scope dump>*`
       base  := ok | err:<kind> | panic:<site>      res := ok:<tag> | err:<kind> | panic:<site>
@@ -52,6 +52,7 @@ partial def stmt : P Stmt := do
   | "L" => do let x ← nat; let t ← nat; pure (.letv x t)
   | "B" => do let b ← block; pure (.block b)
   | "P" => do let id ← nat; let k ← pkind; let p ← path; pure (.probe id k p)
+  | "A" => do let x ← nat; let t ← nat; pure (.param x t)
   | _ => failure
 end
 
